@@ -760,6 +760,40 @@ func validatedValue(w *World, f *ssa.Function, v ssa.Value, depth int) bool {
 	return false
 }
 
+// comparedAnywhere: the value (or one of its phi leaves) is an operand of an
+// ordering comparison somewhere in f.
+func comparedAnywhere(f *ssa.Function, v ssa.Value) bool {
+	leaves := map[ssa.Value]bool{}
+	for _, l := range phiLeaves(resolve(v)) {
+		leaves[resolve(l)] = true
+	}
+	leaves[resolve(v)] = true
+	found := false
+	instrs(f, func(in ssa.Instruction) {
+		b, ok := in.(*ssa.BinOp)
+		if !ok || found {
+			return
+		}
+		switch b.Op {
+		case token.LSS, token.LEQ, token.GTR, token.GEQ:
+			if leaves[resolve(b.X)] || leaves[resolve(b.Y)] {
+				found = true
+			}
+			// the phi itself compared
+			for _, o := range []ssa.Value{b.X, b.Y} {
+				if ph, ok := resolve(o).(*ssa.Phi); ok {
+					for _, l := range phiLeaves(ph) {
+						if leaves[resolve(l)] {
+							found = true
+						}
+					}
+				}
+			}
+		}
+	})
+	return found
+}
+
 func ruleOutRange(w *World, r *Report, fn string) {
 	r.Rule("OUTRANGE", "both ends of the returned index range are range-checked before a success return: each returned bound is compared (directly, through an existence validator, or inside the helper that produced it) in a test whose failing side leads to failure returns only")
 	f := lookupByName(w, fn)
@@ -776,6 +810,12 @@ func ruleOutRange(w *World, r *Report, fn string) {
 		okMin, okMax := validatedValue(w, f, ret.Results[0], 0), validatedValue(w, f, ret.Results[1], 0)
 		for i, nm := range []string{"minimum", "maximum"} {
 			key := fmt.Sprintf("%s / success return#%d / %s", fn, n, nm)
+			if okMin != okMax && ((i == 0 && !okMin) || (i == 1 && !okMax)) && comparedAnywhere(f, ret.Results[i]) {
+				// this end does appear in a comparison (part of a compound condition the rule did
+				// not resolve to a failing side): not "compared with nothing"
+				r.add("OUTRANGE", key, w.Pos(ret.Pos()), Undecided, "the returned "+nm+" ("+describeValue(ret.Results[i])+") is compared, but the comparison could not be tied to a failing side")
+				continue
+			}
 			if okMin != okMax && ((i == 0 && !okMin) || (i == 1 && !okMax)) {
 				// the sibling bound is range-checked and this one is not: one-sided validation
 				r.add("OUTRANGE", key, w.Pos(ret.Pos()), Violated, "only the other end of the returned range is range-checked; the returned "+nm+" ("+describeValue(ret.Results[i])+") is compared with nothing: an index that does not exist can be returned without an error")
@@ -1187,6 +1227,43 @@ func ruleTileCompose(w *World, r *Report) {
 				okRet = false
 			}
 		}
+	}
+	// positive evidence of a different composition: the expansion is applied to a voxel built
+	// here whose vertical index comes from a counter (every z between two bounds), not to
+	// the extended IDs the extended conversion returned
+	counted := ""
+	for _, c := range hc {
+		if len(c.Call.Args) == 0 {
+			continue
+		}
+		obj := resolve(c.Call.Args[0])
+		al, isAl := obj.(*ssa.Alloc)
+		if !isAl || al.Referrers() == nil {
+			continue
+		}
+		for _, ref := range *al.Referrers() {
+			sc, ok := ref.(*ssa.Call)
+			if !ok || len(sc.Call.Args) != 2 || sc.Call.Args[0] != ssa.Value(al) {
+				continue
+			}
+			g := calleeOf(sc)
+			if g == nil || g.Name() != "SetZ" || pkgOf(g) == nil || pkgOf(g).Path() != modPath+"/common/object" {
+				continue
+			}
+			if ph, ok := resolve(sc.Call.Args[1]).(*ssa.Phi); ok {
+				for _, e := range ph.Edges {
+					if inc, ok := resolve(e).(*ssa.BinOp); ok && inc.Op == token.ADD && stripConv(inc.X) == ssa.Value(ph) {
+						if k, isK := constInt(inc.Y); isK && k == 1 {
+							counted = w.Pos(sc.Pos())
+						}
+					}
+				}
+			}
+		}
+	}
+	if !okRet && counted != "" {
+		r.add("COMPOSE", fn+" / expansion loop", pos, Violated, "the expansion is applied to voxels built here whose vertical index is a counter running between two bounds (SetZ at "+counted+"), not to the extended IDs returned by the extended conversion: every index in between is added whether or not a tile covers it")
+		return
 	}
 	if okRet {
 		r.add("COMPOSE", fn+" / expansion loop", pos, Discharged, "result = concatenation of the expansion of every extended ID")
